@@ -171,7 +171,12 @@ fn seeded_case(r: &mut Prng, big: bool) -> Case {
         if r.chance(3, 5) {
             let k = *r.pick(&DKINDS);
             let name = if k.named() { r.pick(&NAMES).to_string() } else { String::new() };
-            let id = if r.chance(1, 6) { REENTRANT_DESC + next_id } else { next_id };
+            let id = match r.below(12) {
+                0 | 1 => REENTRANT_DESC + next_id,
+                // a descriptor may render its node as the empty string
+                2 => EMPTY_DESC + next_id,
+                _ => next_id,
+            };
             let op = Op::SetDesc { kind: k, name, id };
             // one registration in six is made by another (spawned and joined) thread
             c.pre.push(if r.chance(1, 6) { Op::OnThread { ops: vec![op] } } else { op });
@@ -348,7 +353,7 @@ impl Prop for C18 {
                 rt.fired("preempt_in_call", out.rec.preemptions as u64);
             }
         }
-        if case.pre.iter().any(|o| matches!(o, Op::SetDesc { id, .. } if *id >= REENTRANT_DESC)) {
+        if case.pre.iter().any(|o| matches!(o, Op::SetDesc { id, .. } if *id >= REENTRANT_DESC && *id < EMPTY_DESC)) {
             rt.fired("reenter_describe", 1);
         }
         if matches!(case.pre.first(), Some(Op::SetDesc { .. })) {
